@@ -10,9 +10,10 @@ use crate::prng::Rng;
 use crate::rm::decide::{Carrier, Stage, Verdict};
 use crate::run::{finish, preflight, Ctx, Report, Tally, Tier};
 
-pub const MUTATIONS: [&str; 40] = [
+pub const MUTATIONS: [&str; 41] = [
     "structured-edit-auth",
     "timestamp-alias",
+    "timestamp-reoffset",
     "sig-decorated",
     "sig-nonhex",
     "signed-list-edit",
@@ -54,7 +55,8 @@ pub const MUTATIONS: [&str; 40] = [
 ];
 
 /// mutations that change signed content by construction: acceptance is a violation whatever the model says
-const BY_CONSTRUCTION: [&str; 11] = [
+const BY_CONSTRUCTION: [&str; 12] = [
+    "timestamp-reoffset",
     "body-byte", "body-append", "method", "timestamp-plus-1s", "timestamp-minus-1s", "secret-bit", "sig-digit", "sig-zero", "sig-nonhex", "form-pairs-edit", "timestamp-alias",
 ];
 
@@ -292,6 +294,25 @@ fn mutate(
                 format!("{:04}{:02}{:02}T{:02}{:02}{:02}Z", y, mo, d, h, mi, sec)
             } else {
                 format!("{:04}-{:02}-{:02}T{:02}:{:02}:{:02}Z", y, mo, d, h, mi, sec)
+            });
+        }
+        "timestamp-reoffset" => {
+            // the parent's wall-clock digits under another UTC offset: a different instant, a few minutes away and still
+            // inside the window, that a reader who drops or misapplies the offset takes for the parent's
+            if l.t.ns != 0 {
+                return None;
+            }
+            let (y, mo, d, h, mi, sec) = l.t.civil();
+            let off = 1 + r.below(5) as i64;
+            let sign = if r.coin() {
+                '+'
+            } else {
+                '-'
+            };
+            ov.ts_text = Some(match r.below(3) {
+                0 => format!("{:04}{:02}{:02}T{:02}{:02}{:02}{}00{:02}", y, mo, d, h, mi, sec, sign, off),
+                1 => format!("{:04}-{:02}-{:02}T{:02}:{:02}:{:02}{}00:{:02}", y, mo, d, h, mi, sec, sign, off),
+                _ => format!("{:04}{:02}{:02}T{:02}{:02}{:02}.000{}00{:02}", y, mo, d, h, mi, sec, sign, off),
             });
         }
         "sig-decorated" => {
@@ -986,7 +1007,7 @@ pub fn run(tier: Tier) -> i32 {
     ctx.exhaustive("signature positions 0-63 on each sig-position parent", true);
     let rep = Report {
         level: "exploration",
-        rule: "W-mutate: accepted W-sign parents (both carriers, all option sets, tokens) × one change each from a 40-entry catalogue (path/query/header/body/form pairs/method/timestamp incl. out-of-range aliases of the same instant/secret/signature incl. decorated and non-hex/SignedHeaders list/Authorization grammar/carrier/server scope/token/raw URI byte), the child carrying the parent's signature; plus every signature position × wrong digits; plus 'twin' pairs — 18 pairs of byte strings that lossy UTF-8 decoding, Latin-1/UTF-8 confusion, Unicode normalisation, case folding or invisible-character handling map to one another — placed in a signed header value, a query name or value, a path segment or a folded form value: the parent carries one member and is accepted, the child carries the other under the parent's signature. Oracles: shadow verifier (on every success the presented signature must equal the reference HMAC, under the key the provider returned in that execution, of the reference string-to-sign of the request as received) and a model-free metamorphic rule for changes that alter signed content by construction. Non-trivial = a child the reference model refuses at the signature stage and the library refused with the signature-mismatch class (i.e. the comparison itself was exercised); distinct by case hash.".into(),
+        rule: "W-mutate: accepted W-sign parents (both carriers, all option sets, tokens) × one change each from a 41-entry catalogue (path/query/header/body/form pairs/method/timestamp incl. out-of-range aliases of the same instant and the same digits under another offset/secret/signature incl. decorated and non-hex/SignedHeaders list/Authorization grammar/carrier/server scope/token/raw URI byte), the child carrying the parent's signature; plus every signature position × wrong digits; plus 'twin' pairs — 18 pairs of byte strings that lossy UTF-8 decoding, Latin-1/UTF-8 confusion, Unicode normalisation, case folding or invisible-character handling map to one another — placed in a signed header value, a query name or value, a path segment or a folded form value: the parent carries one member and is accepted, the child carries the other under the parent's signature. Oracles: shadow verifier (on every success the presented signature must equal the reference HMAC, under the key the provider returned in that execution, of the reference string-to-sign of the request as received) and a model-free metamorphic rule for changes that alter signed content by construction. Non-trivial = a child the reference model refuses at the signature stage and the library refused with the signature-mismatch class (i.e. the comparison itself was exercised); distinct by case hash.".into(),
         assumptions: vec![
             "HMAC-SHA256 unforgeability is assumed (cryptographic half of the statement)".into(),
             "reference model calibrated on the AWS vectors".into(),
